@@ -6,7 +6,7 @@ import ast
 import re
 from fractions import Fraction
 
-from sa.core import AnalysisError, Report, loc, norm_src
+from sa.core import AnalysisError, Report, loc, norm_src, fresh_copy
 from sa.consteval import ev, Opaque, NameRef
 from sa.paths import dotted, calls_in, call_name
 from sa.numconst import BITS, PREC, dtype_switch
@@ -60,7 +60,7 @@ def precision_expr_ok(func, node):
     got = {}
     for bits in BITS:
         tr = _Finfo(bits, names)
-        e = tr.visit(copy.deepcopy(node))
+        e = tr.visit(fresh_copy(node))
         if tr.unknown:
             return False, f"uses finfo.{tr.unknown}, which this check does not model"
         v = ev(e, {})
